@@ -23,16 +23,16 @@ func TestMain(m *testing.M) { ev.Main(m, "C17") }
 
 // prim bundles one copy of the primitives so both copies run through the same oracle.
 type prim struct {
-	name                        string
-	appendUvarint               func([]byte, uint32) []byte
-	appendVarint                func([]byte, int32) []byte
-	appendVarlong               func([]byte, int64) []byte
-	uvarint                     func([]byte) (uint32, int)
-	varint                      func([]byte) (int32, int)
-	varlong                     func([]byte) (int64, int)
-	uvarintLen                  func(uint32) int
-	varintLen                   func(int32) int
-	varlongLen                  func(int64) int
+	name          string
+	appendUvarint func([]byte, uint32) []byte
+	appendVarint  func([]byte, int32) []byte
+	appendVarlong func([]byte, int64) []byte
+	uvarint       func([]byte) (uint32, int)
+	varint        func([]byte) (int32, int)
+	varlong       func([]byte) (int64, int)
+	uvarintLen    func(uint32) int
+	varintLen     func(int32) int
+	varlongLen    func(int64) int
 }
 
 var prims = []prim{
@@ -195,7 +195,9 @@ func TestDecoderStructures(t *testing.T) {
 		} else {
 			ev.Class("decoder_ok")
 		}
-		ev.SampleIf(func() any { return map[string]any{"decoder_bytes": fmt.Sprintf("%x", in), "ref_value": wv, "ref_n": wn} })
+		ev.SampleIf(func() any {
+			return map[string]any{"decoder_bytes": fmt.Sprintf("%x", in), "ref_value": wv, "ref_n": wn}
+		})
 	}
 	t.Run("5byte", func(t *testing.T) { rapid.Check(t, func(t *rapid.T) { run(t, dec{5, 32}) }) })
 	t.Run("10byte", func(t *testing.T) { rapid.Check(t, func(t *rapid.T) { run(t, dec{10, 64}) }) })
@@ -823,7 +825,7 @@ func TestPrefixesAndReaders(t *testing.T) {
 			if c < 0 {
 				continue
 			}
-			in := buf[:c:c+1] // one byte of hidden capacity: buf[c] is real data the reader must not see
+			in := buf[: c : c+1] // one byte of hidden capacity: buf[c] is real data the reader must not see
 			for _, pub := range []bool{true, false} {
 				var r readerAPI
 				var src *[]byte
